@@ -7,6 +7,12 @@ def main():
     print('translator:', msg)
     if not ok:
         sys.exit(1)
+    # the translator's own mutation self-test: a single-token change of an anchored source expression must change the output
+    rc, out = core.sh([sys.executable, core.os.path.join(core.VERIF, 'tools', 'translate_consts.py'), '--repo', core.REPO, '--selftest'])
+    print('translator self-test:', out.strip().split('\n')[-1])
+    if rc != 0:
+        print(out[-3000:])
+        sys.exit(1)
     rc, out = core.coq_build()
     print(out[-3000:])
     if rc != 0:
